@@ -1,12 +1,172 @@
 /-
-ArtModel.Ops.Fusion — protocol handler(s) for the `fusion` operation family.
+ArtModel.Ops.Fusion — protocol handlers for the `fusion` operation family (C10, C11).
 Core Lean only.  `none` = malformed line (the driver prints `bad-op`).
+All numbers are exact rationals `p/q` (`R` lines).
+
+Common fields
+  CHANS    channel specs joined by `;`, each `KIND:WIDTH:GAMMA:RHO:ALPHA:BETA` with
+           KIND = `fuzzy` (FuzzyART; `dim_original` = WIDTH/2) | `art2a` (ART2A)
+  SKIP     comma-joined channel numbers, negative ones allowed (`-` = none)
+  vectors  comma-joined, matrices = rows joined by `|`, `-` = empty
+
+    fusion hist MODE EPS VETOTAB CHANS # call # call …
+        MODE     MT+ | MT- | MT0 | MT1 | MT~ ;  EPS epsilon of match tracking
+        VETOTAB  rows of 0/1 joined by `|` (`-` = no reset function): row i, column c =
+                 the reset function vetoes category c for the i-th presented sample
+                 (counted over the whole history)
+        call     `fit X` | `pfit X` | `pred X` | `pred X SKIP`
+      output, one group per call joined by ` # `:
+        fit/pfit  `W=<fused W> cnt=<counters> n=<FusionART.sample_counter_> labels=<labels_> ch=<W of module 0>;<W of module 1>;…`
+        pred      `pred=<labels>`
+
+    fusion kern MODE CHANS SKIP X W
+        public `category_choice(i, w, params, skip_channels)` and
+        `match_criterion_bin(i, w, params, cache, op(MODE), skip_channels)` on one sample / one fused weight
+      output  `T=<value|nan> M=<channel match values> bin=<0|1>`
+
+    fusion joinsplit WIDTHS SKIP DATA ROW
+        `join_channel_data(DATA, SKIP)` for one row (DATA = the supplied channel rows joined by `|`)
+        and `split_channel_data(ROW, SKIP)`
+      output  `join=<vector|err> split=<matrix>`
+
+    fusion regr CHANS TARGETS W X
+        `predict_regression(X, TARGETS)` with centres for identity column bounds
+        (fuzzy: `(w[:d] + 1 - w[d:]) / 2`, art2a: `w`)
+      output  `regr=<row>|<row>…`, a row = the target centres joined by `;`, `err` = IndexError
 -/
 import ArtModel.Driver
+import ArtModel.Fusion
 
 namespace Art.Ops
 
+open Art.Drv Art.Fusion
+
+structure ChanSpec where
+  kind : String
+  width : Nat
+  gamma : Rat
+  rho : Rat
+  alpha : Rat
+  beta : Rat
+
+def parseChanSpec (s : String) : Option ChanSpec := do
+  match s.splitOn ":" with
+  | [kind, w, g, rho, al, be] =>
+    if kind != "fuzzy" && kind != "art2a" then none
+    else some ⟨kind, ← w.toNat?, ← parseRat g, ← parseRat rho, ← parseRat al, ← parseRat be⟩
+  | _ => none
+
+def parseChans (s : String) : Option (List ChanSpec) := (splitList s ";").mapM parseChanSpec
+
+def ChanSpec.toChan (c : ChanSpec) : Chan Rat :=
+  if c.kind == "fuzzy" then ⟨fuzzyKernel c.alpha c.beta ((c.width / 2 : Nat) : Rat), c.width, c.gamma⟩
+  else ⟨art2Kernel c.alpha c.beta, c.width, c.gamma⟩
+
+/-- weight-to-centre map of channel `k` for identity column bounds -/
+def specCentre (cs : List ChanSpec) (k : Nat) (w : List Rat) : List Rat :=
+  match cs[k]? with
+  | some c => if c.kind == "fuzzy" then fuzzyCentre w else w
+  | none => w
+
+def parseInts (s : String) : Option (List Int) := (splitList s).mapM String.toInt?
+
+/-- `fusionCfg` over `Rat` (MT1 abandons the search, its `inf` is never compared) -/
+def fusionRatCfg (mode : MT) (eps : Rat) : SearchCfg (List Rat) (List Rat) :=
+  fusionCfg mode (· + eps) (· - eps) 0
+
+inductive FCall where
+  | fit (xs : List (List Rat))
+  | pfit (xs : List (List Rat))
+  | pred (xs : List (List Rat)) (skip : List Int)
+
+def parseFCall (s : String) : Option FCall := do
+  match s.splitOn " " with
+  | ["fit", xs] => some (.fit (← parseMat xs))
+  | ["pfit", xs] => some (.pfit (← parseMat xs))
+  | ["pred", xs] => some (.pred (← parseMat xs) [])
+  | ["pred", xs, sk] => some (.pred (← parseMat xs) (← parseInts sk))
+  | _ => none
+
+def showFusionState (ws : List Nat) (s : ArtState (List Rat)) : String :=
+  let chW (k : Nat) : String := showMat (chanState ws k s).W
+  let ch := ";".intercalate ((List.range ws.length).map chW)
+  s!"W={showMat s.W} cnt={showNats s.cnt} n={s.n} labels={showNats s.labels} ch={ch}"
+
+def runFusion (chans : List (Chan Rat)) (cfg : SearchCfg (List Rat) (List Rat)) (th0 : List Rat)
+    (vetoTab : Option (List (List Bool))) (calls : List FCall) : List String :=
+  let K := fusionKernel chans
+  let ws := widths chans
+  let veto (g base : Nat) : ArtState (List Rat) → List Rat → Nat → Bool := fun s _ c =>
+    match vetoTab with
+    | none => false
+    | some vt => ((vt[g + (s.labels.length - base)]?).getD []).getD c false
+  let rec go (s : ArtState (List Rat)) (g : Nat) : List FCall → List String
+    | [] => []
+    | .fit xs :: cs =>
+      let s' := fit K cfg th0 (veto g 0) s xs
+      showFusionState ws s' :: go s' (g + xs.length) cs
+    | .pfit xs :: cs =>
+      let s' := partialFit K cfg th0 (veto g s.labels.length) s xs
+      showFusionState ws s' :: go s' (g + xs.length) cs
+    | .pred xs sk :: cs =>
+      ("pred=" ++ showOptNats (predictSkip chans sk s.W xs)) :: go s g cs
+  go {} 0 calls
+
+def showOptRat : Option Rat → String
+  | some r => showRat r
+  | none => "nan"
+
+def opFusionHist (line : String) : Option String := do
+  match line.splitOn " # " with
+  | [] => none
+  | hd :: callStrs =>
+    match hd.splitOn " " with
+    | [mode, eps, vt, chans] =>
+      let mode ← parseMT mode
+      let eps ← parseRat eps
+      let vt ← if vt == "-" then some none else (parseVetoTab vt).map some
+      let cs ← parseChans chans
+      let calls ← callStrs.mapM parseFCall
+      some (" # ".intercalate
+        (runFusion (cs.map (·.toChan)) (fusionRatCfg mode eps) (cs.map (·.rho)) vt calls))
+    | _ => none
+
 /-- handler for lines starting with `fusion `; `a` = the remaining space-separated fields -/
-def fusion (_a : List String) : Option String := none
+def fusion (a : List String) : Option String := do
+  match a with
+  | "hist" :: rest => opFusionHist (" ".intercalate rest)
+  | ["kern", mode, chans, skip, x, w] =>
+    let mode ← parseMT mode
+    let cs ← parseChans chans
+    let sk ← parseInts skip
+    let x ← parseVec (α := Rat) x
+    let w ← parseVec (α := Rat) w
+    let ch := cs.map (·.toChan)
+    let skp := skipSet ch.length sk
+    let T := choiceSkip ch skp [w] x w
+    let M := matchVec ch x w
+    let b := matchBinSkip mode skp (cs.map (·.rho)) M
+    some s!"T={showOptRat T} M={showVec M} bin={showBool b}"
+  | ["joinsplit", ws, skip, data, row] =>
+    let ws ← (splitList ws).mapM String.toNat?
+    let sk ← parseInts skip
+    let data ← parseMat (α := Rat) data
+    let row ← parseVec (α := Rat) row
+    let skp := skipSet ws.length sk
+    let j := match joinRow ws skp (1 / 2 : Rat) data with
+      | some v => showVec v
+      | none => "err"
+    some s!"join={j} split={showMat (splitRow ws skp row)}"
+  | ["regr", chans, targets, W, X] =>
+    let cs ← parseChans chans
+    let tg ← parseInts targets
+    let W ← parseMat (α := Rat) W
+    let X ← parseMat (α := Rat) X
+    let ch := cs.map (·.toChan)
+    let rows := X.map (fun x => match predictRegression ch (specCentre cs) tg W x with
+      | some vs => ";".intercalate (vs.map showVec)
+      | none => "err")
+    some ("regr=" ++ (if rows.isEmpty then "-" else "|".intercalate rows))
+  | _ => none
 
 end Art.Ops
